@@ -120,7 +120,9 @@ def component(c, rec):
     if (when.hour, when.minute, when.second) == (0, 0, 0):
         rec.label("epoch_exactly_midnight")
     cfg = SensingAgentConfig(**kit.ground_sensor(30001, c["lat"], c["lon"], c["alt"]))
-    clock = SimpleNamespace(julian_date_start=datetimeToJulianDate(t0), datetime_start=t0)
+    # (a stand-in for the scenario clock at build time, when the current epoch is the start)
+    clock = SimpleNamespace(julian_date_start=datetimeToJulianDate(t0), datetime_start=t0, julian_date_epoch=datetimeToJulianDate(t0),
+                            datetime_epoch=t0, time=0.0)
     dyn = dynamicsFactory(cfg, PropagationConfig(), GeopotentialConfig(), PerturbationsConfig(), clock)
     x0 = cfg.state.toECI(t0)
     _expect(c, t0, x0, rec, "initial state from the configuration")
@@ -175,9 +177,22 @@ def scenario(c, rec):
     sc = kit.build(cfg)
     agent = sc.sensor_agents[20001]
     _expect(c, t0, agent.eci_state, rec, "scenario: initial sensor state")
+    # a second ground facility joins the running scenario (Scenario.addSensor with its geodetic configuration) half-way through
+    k_add = max(1, n // 2)
+    c2 = dict(c, lat=max(-88.0, min(88.0, c["lat"] + 1.5)), lon=((c["lon"] - 2.0 + 180.0) % 360.0) - 180.0)
+    added = None
     for k in range(1, n + 1):
         sc.stepForward()
         when = t0 + timedelta(seconds=k * dt)
+        if k == k_add:
+            sc.addSensor(kit.ground_sensor(20002, c2["lat"], c2["lon"], c2["alt"]), 1)
+            added = sc.sensor_agents[20002]
+            _expect(c2, when, added.eci_state, rec, f"scenario: ground sensor added after step {k}, state at joining")
+        elif added is not None:
+            if added.datetime_epoch != when:
+                raise Violation("agent_epoch", f"added sensor epoch {added.datetime_epoch} != {when}")
+            _expect(c2, when, added.eci_state, rec, f"scenario: ground sensor added after step {k_add}, state after step {k}")
+            rec.label("midrun_ground_sensor_checked")
         if agent.datetime_epoch != when:
             raise Violation("agent_epoch", f"sensor agent epoch {agent.datetime_epoch} != {when}")
         _expect(c, when, agent.eci_state, rec, f"scenario: sensor state after step {k}")
